@@ -13,7 +13,7 @@ import (
 
 func init() {
 	register(&core.Spec{
-		ID: "C08",
+		ID:          "C08",
 		Explanation: "Decides the clause 'if eq reports two values equal they hash identically' as an agreement between sibling implementations, type by type: (EH-PAIR) every type with a Hash method also has Equal, the receiver fields read by Hash are a subset of those Equal compares (whole-value == counts as all fields), and an address hash is only paired with identity equality; (EH-CASE) inside vals.Hash the float64 case normalises the sign of zero before taking the bit pattern (== identifies +0 and -0), the map and field-map hashers combine entries with the same commutative operator, initial value and per-entry function (a field map can be eq to a map, and iteration order of eq maps may differ), File is hashed by the same accessor eq compares; (EH-ORDER) the interface cases of vals.Equal and vals.Hash appear in an order that cannot send one value to a structural equality but a different hasher. It does not decide that the hash map honours hashes (C07).",
 		NotCovered:  "quality of hashes; has-key/assoc behaviour of the map itself (C07)",
 		Rules:       []string{"EH-PAIR", "EH-CASE", "EH-ORDER"},
@@ -32,7 +32,7 @@ func init() {
 		},
 	})
 	register(&core.Spec{
-		ID: "C09",
+		ID:          "C09",
 		Explanation: "Decides two structural necessary conditions of 'compare is a transitive total preorder': (NUMSET) the sets of number representations used by the comparison machinery agree everywhere - the outer and inner type switches of cmpInner, the switch over the unified operand, getNumType, and typeOf's number class (plus int, which typeOf(0) contributes) are all exactly {int, *big.Int, *big.Rat, float64}, so no mixed pair falls through to 'uncomparable' and compare &total does not split numbers by representation; (CMP-DOMAINS) operands of one exact type must not be ordered through a lossy image while the same comparison also orders that type exactly: such a pair always yields a non-transitive triple. CMP-DOMAINS fires on today's tree (known finding: mixed exact/float comparison goes through ConvertToFloat64). Reflexivity, symmetry, NaN placement and list order are value-level and not decided.",
 		NotCovered:  "reflexivity/symmetry, NaN placement, lexicographic list order, byte order of strings",
 		Rules:       []string{"NUMSET", "CMP-DOMAINS", "TOTAL-RECURSE: CmpTotal orders list elements with CmpTotal"},
@@ -48,7 +48,7 @@ func init() {
 		},
 	})
 	register(&core.Spec{
-		ID: "C10",
+		ID:          "C10",
 		Explanation: "Decides the stability and failure-atomicity clauses of C10 structurally: (STABLE) every sort that order applies to the value slice is a stable one (sort.Stable, sort.SliceStable, slices.SortStableFunc); an unstable sort is invisible to tests below the library's insertion-sort threshold; (LATCH) every value output of order is dominated by the 'no comparator error' edge tested after sorting, and the comparator sets the error latch on every failing exit (uncomparable pair, callback error, wrong arity, non-boolean), so order outputs nothing when it throws; (SWAP-PAIR) Swap exchanges the keys whenever keys exist, keeping values and keys aligned. That the output is sorted and a permutation, and the option equivalences, are not decided.",
 		NotCovered:  "sortedness and permutation of the output; &key/&less-than/&total equivalences",
 		Rules:       []string{"STABLE", "LATCH", "SWAP-PAIR"},
@@ -65,7 +65,7 @@ func init() {
 		},
 	})
 	register(&core.Spec{
-		ID: "C11",
+		ID:          "C11",
 		Explanation: "Decides two structural clauses of C11: (NORM) canonical form - no value of static type *big.Int or *big.Rat is turned into an Elvish value (written to the value output, put in a list or map) without passing vals.FromGo / NormalizeBigInt / NormalizeBigRat, and goFn.Call converts every return value of a Go builtin with vals.FromGo; (EXACT-ZERO) every big-number operation that panics on zero (Rat.Inv/Quo/SetFrac, Int.Quo/Rem/Div/Mod/...) reached by script-controlled numbers is dominated by a non-zero test of its divisor, or audited with a reason - so operations without an exact result raise an exception instead of crashing. Numeric correctness of the results is not decided.",
 		NotCovered:  "mathematical correctness of results; that every arithmetic builtin returns through a normalising path is decided only for direct outputs and goFn returns",
 		Rules:       []string{"NORM", "GOFN-NORM", "EXACT-ZERO"},
@@ -246,54 +246,65 @@ func runC08(p *core.Program, r *core.Report) {
 	}
 	// float64: argument of math.Float64bits is zero-normalised
 	nbits := 0
+	// the float case may live in a helper that vals.Hash calls
+	hashFns := []*ssa.Function{hashFn}
 	core.Instrs(hashFn, func(ins ssa.Instruction) {
-		c, ok := ins.(*ssa.Call)
-		if !ok || c.Call.StaticCallee() == nil || c.Call.StaticCallee().String() != "math.Float64bits" {
-			return
+		if c, ok := ins.(*ssa.Call); ok {
+			if callee := c.Call.StaticCallee(); callee != nil && core.PkgPathOf(callee) == pkgVals && callee != hashFn && callee.Blocks != nil {
+				hashFns = append(hashFns, callee)
+			}
 		}
-		nbits++
-		arg := c.Call.Args[0]
-		norm := false
-		switch x := arg.(type) {
-		case *ssa.Phi:
-			// one edge is the constant 0 coming from the `v == 0` true edge
-			for i, e := range x.Edges {
-				if k, ok := e.(*ssa.Const); ok && k.Value != nil && k.Float64() == 0 && !strings.HasPrefix(k.Value.String(), "-") {
-					pred := x.Block().Preds[i]
-					// pred (or its dominator) is the true edge of v == 0
-					for _, b := range hashFn.Blocks {
-						if len(b.Instrs) == 0 {
-							continue
-						}
-						iff, ok := b.Instrs[len(b.Instrs)-1].(*ssa.If)
-						if !ok {
-							continue
-						}
-						cmp, ok := iff.Cond.(*ssa.BinOp)
-						if !ok || cmp.Op != token.EQL {
-							continue
-						}
-						if kk, ok := cmp.Y.(*ssa.Const); ok && kk.Value != nil && kk.Float64() == 0 {
-							if (b.Succs[0] == pred || b.Succs[0].Dominates(pred)) || (b == pred && b.Succs[0] == x.Block()) {
-								norm = true
+	})
+	for _, hashFn := range hashFns {
+		core.Instrs(hashFn, func(ins ssa.Instruction) {
+			c, ok := ins.(*ssa.Call)
+			if !ok || c.Call.StaticCallee() == nil || c.Call.StaticCallee().String() != "math.Float64bits" {
+				return
+			}
+			nbits++
+			arg := c.Call.Args[0]
+			norm := false
+			switch x := arg.(type) {
+			case *ssa.Phi:
+				// one edge is the constant 0 coming from the `v == 0` true edge
+				for i, e := range x.Edges {
+					if k, ok := e.(*ssa.Const); ok && k.Value != nil && k.Float64() == 0 && !strings.HasPrefix(k.Value.String(), "-") {
+						pred := x.Block().Preds[i]
+						// pred (or its dominator) is the true edge of v == 0
+						for _, b := range hashFn.Blocks {
+							if len(b.Instrs) == 0 {
+								continue
+							}
+							iff, ok := b.Instrs[len(b.Instrs)-1].(*ssa.If)
+							if !ok {
+								continue
+							}
+							cmp, ok := iff.Cond.(*ssa.BinOp)
+							if !ok || cmp.Op != token.EQL {
+								continue
+							}
+							if kk, ok := cmp.Y.(*ssa.Const); ok && kk.Value != nil && kk.Float64() == 0 {
+								if (b.Succs[0] == pred || b.Succs[0].Dominates(pred)) || (b == pred && b.Succs[0] == x.Block()) {
+									norm = true
+								}
 							}
 						}
 					}
 				}
-			}
-		case *ssa.BinOp:
-			if x.Op == token.ADD {
-				if k, ok := x.Y.(*ssa.Const); ok && k.Value != nil && k.Float64() == 0 {
-					norm = true // v + 0 maps -0 to +0
+			case *ssa.BinOp:
+				if x.Op == token.ADD {
+					if k, ok := x.Y.(*ssa.Const); ok && k.Value != nil && k.Float64() == 0 {
+						norm = true // v + 0 maps -0 to +0
+					}
 				}
 			}
-		}
-		if norm {
-			r.OK("EH-CASE", "vals.Hash float64: sign of zero normalised before Float64bits", p.InsPos(ins), "the bit pattern is taken of a value in which -0 has been replaced by +0")
-		} else {
-			r.Bad("EH-CASE", "vals.Hash float64: sign of zero normalised before Float64bits", p.InsPos(ins), "vals.Equal uses ==, which identifies +0.0 and -0.0, but their bit patterns (and so their hashes) differ: a map can hold both as distinct keys / miss one of them")
-		}
-	})
+			if norm {
+				r.OK("EH-CASE", "vals.Hash float64: sign of zero normalised before Float64bits", p.InsPos(ins), "the bit pattern is taken of a value in which -0 has been replaced by +0")
+			} else {
+				r.Bad("EH-CASE", "vals.Hash float64: sign of zero normalised before Float64bits", p.InsPos(ins), "vals.Equal uses ==, which identifies +0.0 and -0.0, but their bit patterns (and so their hashes) differ: a map can hold both as distinct keys / miss one of them")
+			}
+		})
+	}
 	r.Anchor("EH-CASE", "math.Float64bits in vals.Hash", nbits >= 1)
 
 	// float64, NaN: the hash is the bit pattern, and NaNs produced by
@@ -327,20 +338,22 @@ func runC08(p *core.Program, r *core.Report) {
 		}
 	})
 	nanNormalised := false
-	core.Instrs(hashFn, func(ins ssa.Instruction) {
-		switch x := ins.(type) {
-		case *ssa.Call:
-			if callee := x.Call.StaticCallee(); callee != nil && callee.String() == "math.IsNaN" {
-				nanNormalised = true
-			}
-		case *ssa.BinOp:
-			if (x.Op == token.NEQ || x.Op == token.EQL) && x.X == x.Y {
-				if b, ok := x.X.Type().Underlying().(*types.Basic); ok && b.Kind() == types.Float64 {
-					nanNormalised = true // v != v
+	for _, hf := range hashFns {
+		core.Instrs(hf, func(ins ssa.Instruction) {
+			switch x := ins.(type) {
+			case *ssa.Call:
+				if callee := x.Call.StaticCallee(); callee != nil && callee.String() == "math.IsNaN" {
+					nanNormalised = true
+				}
+			case *ssa.BinOp:
+				if (x.Op == token.NEQ || x.Op == token.EQL) && x.X == x.Y {
+					if b, ok := x.X.Type().Underlying().(*types.Basic); ok && b.Kind() == types.Float64 {
+						nanNormalised = true // v != v
+					}
 				}
 			}
-		}
-	})
+		})
+	}
 	switch {
 	case customFloatEq == "":
 		r.OK("EH-CASE", "vals.Equal compares floats with ==, or vals.Hash maps all NaNs to one hash", p.Pos(equalFn.Pos()), "no float is handed to another comparison inside vals.Equal: IEEE == equates no NaN, so differing NaN bit patterns never hash eq values apart")
@@ -987,19 +1000,34 @@ func runC11(p *core.Program, r *core.Report) {
 	gocall := p.Method(pkgEval, "goFn", "Call")
 	if r.Anchor("GOFN-NORM", "(*eval.goFn).Call", gocall != nil) {
 		nput := 0
+		// the output of return values may sit in a helper that Call uses
+		putFns := []*ssa.Function{gocall}
 		core.Instrs(gocall, func(ins ssa.Instruction) {
-			c, ok := ins.(*ssa.Call)
-			if !ok || !c.Call.IsInvoke() || c.Call.Method.Name() != "Put" {
-				return
-			}
-			nput++
-			arg := c.Call.Args[0]
-			if fc, ok := arg.(*ssa.Call); ok && fc.Call.StaticCallee() != nil && fc.Call.StaticCallee().Name() == "FromGo" {
-				r.OK("GOFN-NORM", "(*eval.goFn).Call converts return values with vals.FromGo #"+itoa(nput), p.InsPos(ins), "the value written is vals.FromGo(...)")
-			} else {
-				r.Bad("GOFN-NORM", "(*eval.goFn).Call converts return values with vals.FromGo #"+itoa(nput), p.InsPos(ins), "a Go builtin's return value is output without vals.FromGo: big numbers returned by arithmetic builtins are not brought to canonical form")
+			if c, ok := ins.(*ssa.Call); ok {
+				if callee := c.Call.StaticCallee(); callee != nil && core.PkgPathOf(callee) == pkgEval && callee.Blocks != nil && callee != gocall {
+					for _, prm := range callee.Params {
+						if strings.HasSuffix(prm.Type().String(), "eval.ValueOutput") {
+							putFns = append(putFns, callee)
+						}
+					}
+				}
 			}
 		})
+		for _, gocall := range putFns {
+			core.Instrs(gocall, func(ins ssa.Instruction) {
+				c, ok := ins.(*ssa.Call)
+				if !ok || !c.Call.IsInvoke() || c.Call.Method.Name() != "Put" {
+					return
+				}
+				nput++
+				arg := c.Call.Args[0]
+				if fc, ok := arg.(*ssa.Call); ok && fc.Call.StaticCallee() != nil && fc.Call.StaticCallee().Name() == "FromGo" {
+					r.OK("GOFN-NORM", "(*eval.goFn).Call converts return values with vals.FromGo #"+itoa(nput), p.InsPos(ins), "the value written is vals.FromGo(...)")
+				} else {
+					r.Bad("GOFN-NORM", "(*eval.goFn).Call converts return values with vals.FromGo #"+itoa(nput), p.InsPos(ins), "a Go builtin's return value is output without vals.FromGo: big numbers returned by arithmetic builtins are not brought to canonical form")
+				}
+			})
+		}
 		r.Anchor("GOFN-NORM", "value outputs in goFn.Call", nput >= 1)
 	}
 	// EXACT-ZERO
